@@ -96,7 +96,7 @@ func genFieldValue(rng *rand.Rand) string {
 	case 0:
 		return ""
 	case 1, 2, 3:
-		return pick(rng, "1", "42", "abc", "msg", "update", "a b", " lead", "trail ", "a:b", ":x", "é", "id: x", "data: y",
+		return pick(rng, "message", "1", "42", "abc", "msg", "update", "a b", " lead", "trail ", "a:b", ":x", "é", "id: x", "data: y",
 			// values that look escaped are taken as they are: nothing decodes them into line breaks
 			"5%0Adata: injected%0D%0A%0Aid: 6", "a%0Ab", "%0D%0A", `a\nb`, "a&#10;b", "a+b%20c", "%")
 	case 4:
